@@ -195,6 +195,53 @@ def bounded(pb, interp, rng, tier):
                 fail("combined-graph.values", name, f"max abs diff {np.max(np.abs(got - want), initial=0.0):.2e}")
         except Exception as e:
             fail("combined-graph.raises", name, f"{type(e).__name__}: {str(e)[:150]}")
+    # ---- the same operation on two DIFFERENT signals, results computed in one graph: each result is its own
+    # (task names chosen by the library must depend on the data they are computed from)
+    for name, mk_name, op in ops:
+        if op is None or name == "persist":
+            continue
+        maker, x = makers[mk_name]
+        x2 = (x[::-1] * 0.5 + 1).astype(x.dtype)
+        ev += 1
+        distinct.add(("two-inputs", name))
+        try:
+            w1, w2 = np.asarray(op(maker(x)).data), np.asarray(op(maker(x2)).data)
+            ch = (-1,) + (1,) * (x.ndim - 1)
+            r1, r2 = op(maker(da.from_array(x, chunks=ch))), op(maker(da.from_array(x2, chunks=ch)))
+            g1, g2 = dask.compute(r1.data, r2.data, scheduler="synchronous")
+            scale = max(1e-30, float(np.max(np.abs(w1), initial=0.0)), float(np.max(np.abs(w2), initial=0.0)))
+            for tag_, g_, w_ in (("first", g1, w1), ("second", g2, w2)):
+                g_ = np.asarray(g_)
+                if g_.shape != w_.shape or not (np.max(np.abs(g_ - w_), initial=0.0) <= 4e-6 * scale):
+                    fail("combined-graph.two-inputs.values", f"{name} ({tag_} of two signals computed together)",
+                         f"max abs diff {np.max(np.abs(g_ - w_), initial=0.0) if g_.shape == w_.shape else 'shape'}")
+        except Exception as e:
+            fail("combined-graph.two-inputs.raises", name, f"{type(e).__name__}: {str(e)[:150]}")
+    # ---- two readers of the same class, same offsets, different content: lazily read and computed in one graph
+    try:
+        class _Ramp(pb.readers.BaseReader):
+            def __init__(self, base_, **kw):
+                self.base_ = base_
+                super().__init__(**kw)
+
+            def _read_array(self, offset, n, /, **kwargs):
+                k = np.arange(offset, offset + n, dtype=np.float64)[:, None]
+                return (self.base_ + k + np.arange(self.shape[1])[None, :] / 10).astype(self.dtype)
+        rkw = dict(shape=(64, 4), dtype=np.float64, sample_rate=1 * u.kHz, signal_type=pb.RadioSignal, chan_bw=1 * u.MHz)
+        lo, hi = _Ramp(0.0, center_freq=398 * u.MHz, **rkw), _Ramp(1000.0, center_freq=402 * u.MHz, **rkw)
+        for chunks in ((-1, -1), (-1, 2)):
+            ev += 1
+            distinct.add(("two-readers", chunks))
+            a, b = lo.dask_read(8, 16, chunks=chunks), hi.dask_read(8, 16, chunks=chunks)
+            ga, gb = dask.compute(a.data, b.data, scheduler="synchronous")
+            if not (np.array_equal(ga, lo.read(8, 16).data) and np.array_equal(gb, hi.read(8, 16).data)):
+                fail("combined-graph.two-readers.values", f"two readers, read(8, 16), chunks={chunks}", "one reader's samples delivered for the other")
+            xd = pb.concatenate([a, b], axis="freq").compute(scheduler="synchronous")
+            xn = pb.concatenate([lo.read(8, 16), hi.read(8, 16)], axis="freq")
+            if not np.array_equal(np.asarray(xd.data), np.asarray(xn.data)):
+                fail("combined-graph.two-readers.concatenate", f"chunks={chunks}", "concatenated Dask reads differ from the NumPy reads")
+    except Exception as e:
+        fail("combined-graph.two-readers.raises", "", f"{type(e).__name__}: {str(e)[:150]}")
     # lazily built per-channel chirps must stay distinct even when the channel frequencies differ
     # only in the 9th significant digit (task names derived from a lossy token would collide)
     ev += 1
